@@ -13,12 +13,12 @@ import (
 // noise.
 
 type wfield struct {
-	num   uint64
-	wt    uint64
-	start int // offset of the key
+	num    uint64
+	wt     uint64
+	start  int // offset of the key
 	vstart int // offset of the value (after key, and after the length prefix for wt 2)
-	end   int
-	lenAt int // offset of the length prefix (wt 2), else -1
+	end    int
+	lenAt  int // offset of the length prefix (wt 2), else -1
 }
 
 func parseFields(b []byte, base int) ([]wfield, bool) {
